@@ -9,8 +9,8 @@ import (
 	"verif/internal/cls"
 )
 
-var noise = []rune{'a', 'b', 'x', '0', ' ', '\n', '_', '-', 'A', 'é', 'λ', '日', 0x0301, 0x1F600, 'q'}
-var noiseSafe = []rune{'a', 'b', 'x', '0', ' ', '\n', '_', '-', 'A', 'é', 'λ', '日', 0x0301, 0x1F600, 'q', 'Ж'}
+var noise = []rune{'a', 'b', 'x', '0', ' ', '\n', '_', '-', 'A', 'é', 'λ', '日', 0x0301, 0x1F600, 'q', 0x1F601, 0x10FFFF}
+var noiseSafe = []rune{'a', 'b', 'x', '0', ' ', '\n', '_', '-', 'A', 'é', 'λ', '日', 0x0301, 0x1F600, 'q', 'Ж', 0x1F601, 0x10FFFF}
 
 func classOpts(n *ast.Node, re2, ecma bool) cls.Opts {
 	return cls.Opts{I: n.Eff.I, RE2: re2, ECMA: ecma}
@@ -39,7 +39,7 @@ func member(n *ast.Node, want bool, cands []rune, re2 bool) (rune, bool) {
 	return 0, false
 }
 
-var probeRunes = []rune{'a', 'b', 'c', 'x', 'y', 'z', 'A', 'B', 'Z', '0', '1', '5', '9', ' ', '\t', '\n', '_', '-', '!', '.', 'é', 'É', 'λ', 'Λ', 'ж', 'Ж', '日', 0x0301, 0x1F600, 0x00A0, 0x0660, 'ÿ', 0x2028}
+var probeRunes = []rune{'a', 'b', 'c', 'x', 'y', 'z', 'A', 'B', 'Z', '0', '1', '5', '9', ' ', '\t', '\n', '_', '-', '!', '.', 'é', 'É', 'λ', 'Λ', 'ж', 'Ж', '日', 0x0301, 0x1F600, 0x00A0, 0x0660, 'ÿ', 0x2028, 0xFFFF, 0x10000, 0x1F601, 0x10FFFF}
 
 // Alphabet derives a small alphabet from the pattern: its literal runes, one member and one
 // non-member of every set leaf, newline and one foreign rune; capped to max symbols
